@@ -89,9 +89,10 @@ BUILTIN_NAMES = {"len", "range", "isinstance", "enumerate", "zip", "min",
                  "implies", "ite", "typeis", "fresh", "unchanged", "norm",
                  "card", "dict", "hasattr", "getattr", "sum", "iff",
                  "distinct_upto", "select", "substr", "at",
-                 "unchanged_since_head", "entry", "select_set", "head"}
+                 "unchanged_since_head", "entry", "select_set", "head",
+                 "select_dict"}
 
 CONTAINER_METHODS = {"append", "pop", "insert", "extend", "remove", "index",
                      "reverse", "clear", "copy", "add", "discard", "keys",
-                     "values", "items", "get", "update", "count", "sort",
+                     "values", "items", "get", "update", "count", "sort", "union",
                      "__setitem__", "__delitem__", "__getitem__", "__len__"}
